@@ -130,8 +130,29 @@ def first_error_in_repo(log):
     return os.path.realpath(m.group(1)).startswith(os.path.realpath(REPO) + "/")
 
 
+import threading  # noqa: E402
+
+_build_locks = {}
+_build_locks_guard = threading.Lock()
+
+
+def _lock_for(key):
+    with _build_locks_guard:
+        return _build_locks.setdefault(key, threading.Lock())
+
+
 def compile_obj(name, src, flags, compiler="g++", src_text=None):
     """Compile one TU to an object in the content-addressed cache; returns its path."""
+    if src_text is None:
+        with open(src, "rb") as fh:
+            k0 = fh.read()
+    else:
+        k0 = src_text.encode()
+    with _lock_for(sha(k0, compiler, " ".join(flags))):
+        return _compile_obj(name, src, flags, compiler, src_text)
+
+
+def _compile_obj(name, src, flags, compiler="g++", src_text=None):
     if src_text is None:
         with open(src, "rb") as fh:
             body = fh.read()
@@ -145,7 +166,7 @@ def compile_obj(name, src, flags, compiler="g++", src_text=None):
         src = os.path.join(cache_dir(), f"{name}-{key}.cpp")
         with open(src, "w") as fh:
             fh.write(src_text)
-    tmp = out + f".tmp{os.getpid()}"
+    tmp = out + f".tmp{os.getpid()}-{threading.get_ident()}"
     cmd = [compiler] + STD + flags + INC + ["-c", src, "-o", tmp]
     p = subprocess.run(cmd, stdout=subprocess.PIPE, stderr=subprocess.STDOUT, text=True)
     if p.returncode != 0:
@@ -162,7 +183,7 @@ def link(name, objs, flags, libs=(), compiler="g++"):
     out = os.path.join(cache_dir(), f"{name}-{key}.bin")
     if os.path.exists(out):
         return out
-    tmp = out + f".tmp{os.getpid()}"
+    tmp = out + f".tmp{os.getpid()}-{threading.get_ident()}"
     cmd = [compiler] + flags + list(objs) + ["-o", tmp] + list(libs)
     p = subprocess.run(cmd, stdout=subprocess.PIPE, stderr=subprocess.STDOUT, text=True)
     if p.returncode != 0:
